@@ -80,6 +80,10 @@ pub enum SpecKind {
     Sum,
     /// label sets, ScmapCompress (join only equal label sets)
     Scmap,
+    /// label sets, a user-written spec: join only equal label sets, and never a node whose label
+    /// set is exactly {0} ("keep the k-mers of sample 0 uncompressed") - a `join_test` that can
+    /// refuse two EQUAL payloads
+    ScmapExcept,
 }
 
 #[derive(Clone, Debug, Serialize, Deserialize)]
@@ -121,7 +125,7 @@ pub struct Case {
 
 impl Case {
     fn idempotent(&self) -> bool {
-        self.threshold <= 1 && self.spec == SpecKind::Scmap
+        self.threshold <= 1 && self.spec != SpecKind::Sum
     }
 }
 
@@ -165,6 +169,33 @@ impl Mode for ScmapMode {
     }
     fn spec() -> Self::Spec {
         ScmapCompress::new()
+    }
+    fn fmt(d: &Vec<u8>) -> String {
+        format!("{:?}", d)
+    }
+}
+
+struct ExceptSpec;
+impl CompressionSpec<Vec<u8>> for ExceptSpec {
+    fn reduce(&self, path_object: Vec<u8>, _kmer_object: &Vec<u8>) -> Vec<u8> {
+        // only ever called on equal payloads
+        path_object
+    }
+    fn join_test(&self, d1: &Vec<u8>, d2: &Vec<u8>) -> bool {
+        d1 == d2 && d1.as_slice() != [0u8]
+    }
+}
+
+struct ScmapExceptMode;
+impl Mode for ScmapExceptMode {
+    type DS = Vec<u8>;
+    type Summ = CountFilterSet<u8>;
+    type Spec = ExceptSpec;
+    fn summ(t: usize) -> CountFilterSet<u8> {
+        CountFilterSet::new(t)
+    }
+    fn spec() -> Self::Spec {
+        ExceptSpec
     }
     fn fmt(d: &Vec<u8>) -> String {
         format!("{:?}", d)
@@ -464,6 +495,7 @@ where
     match c.spec {
         SpecKind::Sum => run_mode::<K, P, V, SumMode>(c, rec, sharder),
         SpecKind::Scmap => run_mode::<K, P, V, ScmapMode>(c, rec, sharder),
+        SpecKind::ScmapExcept => run_mode::<K, P, V, ScmapExceptMode>(c, rec, sharder),
     }
 }
 
@@ -741,7 +773,11 @@ impl Harness for C04 {
                 }
             }
         };
-        let spec = if rng.chance(1, 2) { SpecKind::Sum } else { SpecKind::Scmap };
+        let spec = match rng.below(8) {
+            0..=3 => SpecKind::Sum,
+            4..=6 => SpecKind::Scmap,
+            _ => SpecKind::ScmapExcept,
+        };
         let threshold = match rng.below(6) {
             0..=2 => 1,
             3 | 4 => 2,
